@@ -6,7 +6,7 @@ Local Open Scope Z_scope.
 
 (* ---------- side conditions on the generated constants ---------- *)
 Record consts_facts : Prop := {
-  cf_div : 0 < CD_DIV;
+  cf_div : 0 < CD_DIV; cf_div2 : 2 <= CD_DIV;
   cf_min : 0 < CD_MIN;
   cf_minmax : CD_MIN <= CD_MAX;
   cf_knee : CD_MIN * CD_DIV <= 4294967296;
@@ -254,7 +254,8 @@ Proof. unfold t2_set. destruct (_ <? _); reflexivity. Qed.
 Record wf_cfg (c : cfg) : Prop := {
   wf_chan : forall r, In r (c_relays c) -> 0 <= r_chan r < 8;
   wf_gpio : forall r, In r (c_relays c) -> 0 <= r_gpio r < 16;
-  wf_late : forall j, In j (c_late c) -> 0 <= j
+  wf_late : forall j, In j (c_late c) -> 0 <= j;
+  wf_boot : 0 <= c_boot c; wf_boot2 : 0 <= c_boot2 c
 }.
 
 Record SlotOK (s : st) (x : slot) : Prop := {
@@ -427,7 +428,7 @@ Definition evald (lo hi : Z) (s0 : st) (x y : slot) : Prop :=
       (s_left x <= rd s0 tl - s_last x /\ y = slot_release x (rd s0 tl) tl))).
 
 Record frame (s s' : st) : Prop := {
-  fr_cnt0 : cnt0 s' = cnt0 s; fr_tb : tb s' = tb s; fr_chfl : chfl s' = chfl s; fr_time2 : time2 s' = time2 s;
+  fr_cnt0 : cnt0 s' = cnt0 s; fr_tb : tb s' = tb s;
   fr_now : now s <= now s';
   fr_outs : exists add, outs s' = add ++ outs s
 }.
@@ -782,7 +783,8 @@ Lemma cd_cb_spec c due s s' :
   s' = cd_cb c due s -> Inv s -> Tr s -> NW s' ->
   Good s' /\ frame s s' /\ now s' <= now s + 8 * OP /\
   (forall i, (i < 8)%nat -> evald (now s) (now s') s (slot_at s i) (slot_at s' i)) /\
-  (exists add, outs s' = add ++ outs s /\ Forall (fun o => isghost o = true -> eval_ghost s s' due o) add) /\
+  (exists add, outs s' = add ++ outs s /\ Forall (fun o => isghost o = true -> eval_ghost s s' due o) add /\
+               In (GEvalStart due (now s)) add) /\
   ((tcd s' = tcd s /\ delay s' = delay s) \/ t_due (tcd s') = now s' + t_per (tcd s') \/ t_on (tcd s') = false).
 Proof.
   intros Es' I T N. rewrite cd_cb_eq in Es'.
@@ -819,7 +821,8 @@ Proof.
   - destruct lp_outs0 as (add & O1' & O2).
     exists (GEvalEnd (now s2) :: add ++ [GEvalStart due (now s)]). split.
     + rewrite E7, O3, O1', O1. cbn [app]. rewrite <- app_assoc. reflexivity.
-    + constructor; [|apply Forall_app; split].
+    + split; [|right; apply in_or_app; right; left; reflexivity].
+      constructor; [|apply Forall_app; split].
       * intros _. right; left. exists (now s2). split; auto. rewrite E4, Nb. destruct F12. rewrite Na in fr_now0. lia.
       * apply Forall_forall. intros o Ho Gh. right; right.
         pose proof (proj1 (Forall_forall _ _) O2) as O2'.
@@ -1335,4 +1338,416 @@ Proof.
     + apply (evo_trans _ s s1 s'); [apply F1|auto|]. subst s'. apply evo_same_slots. reflexivity.
     + subst s'. cbn. lia.
   - subst s'. destruct (adv_spec e c _ _ s s1 Es1 W G N) as (G1 & E1). split; [auto|]. split; [auto|lia].
+Qed.
+
+(* ---------- unconditional frames (needed to push the no-wrap hypothesis backwards) ---------- *)
+Lemma disarm_frame c ch s : frame s (disarm c ch s).
+Proof.
+  unfold disarm. destruct (find_slot _ _ _); [|apply frame_refl].
+  set (s1 := set_slots _ s). assert (F1 : frame s s1) by (constructor; cbn; try reflexivity; try lia; exists []; auto).
+  destruct (0 <? _); auto. eapply frame_trans; [exact F1|]. eapply frame_trans; [apply frame_passive, passive_t2_set|].
+  destruct (chflags_of _ _ _); [destruct (hasf _ _)|]; try apply frame_refl. apply frame_passive, passive_ext_changed.
+Qed.
+Lemma countdown_frame e c ms gpio ch tg sd s : frame s (countdown e c ms gpio ch tg sd s).
+Proof.
+  unfold countdown. destruct (match find_slot _ _ _ with Some _ => _ | None => _ end); [|apply frame_refl].
+  pose proof (frame_uptime s) as FU. destruct (uptime_msec s) as [s1 u]. cbn [fst] in FU.
+  set (s2 := set_slots _ _). assert (F12 : frame s1 s2) by (constructor; cbn; try reflexivity; try lia; eexists [_]; reflexivity).
+  eapply frame_trans; [exact FU|]. eapply frame_trans; [exact F12|]. eapply frame_trans; [apply frame_passive, passive_t2_set|].
+  destruct e; [apply cd_cb_frame|apply frame_startstop].
+Qed.
+Lemma sdt_frame e c ch nv dur sd s : frame s (set_duration_timer e c ch nv dur sd s).
+Proof.
+  unfold set_duration_timer.
+  set (stair := (ch <? ST_T2_COUNT) && (ch <? T2_COUNT) && (0 <? getz (time2 s) ch)).
+  set (s0 := if stair && (nv =? 0) then set_ram_t2 (setz (ram_t2 s) ch 0) s else s).
+  set (dur1 := if stair then _ else dur).
+  assert (F0 : frame s s0) by (unfold s0; destruct (stair && (nv =? 0)); [apply frame_passive, passive_set_ram_t2|apply frame_refl]).
+  set (s1 := disarm c (u8 ch) s0). assert (F1 : frame s0 s1) by apply disarm_frame.
+  pose proof (frame_trans _ _ _ F0 F1) as F01.
+  destruct (0 <? dur1); auto. destruct (find_chan (c_relays c) 0 ch) as [[a r]|]; auto.
+  set (f := getz (chfl s1) a).
+  set (s2 := if (nv =? 1) || hasf f CHFLAG_COUNTDOWN then _ else s1).
+  assert (F2 : frame s1 s2) by (unfold s2; destruct ((nv =? 1) || hasf f CHFLAG_COUNTDOWN); [apply countdown_frame|apply frame_refl]).
+  eapply frame_trans; [exact F01|]. eapply frame_trans; [exact F2|].
+  destruct (hasf f CHFLAG_COUNTDOWN); [apply frame_passive, passive_ext_changed|apply frame_refl].
+Qed.
+Lemma restore_relay_frame e c s ar : frame s (restore_relay e c s ar).
+Proof.
+  unfold restore_relay. destruct ar as [a r]. destruct (_ || _).
+  - eapply frame_trans; [|apply frame_passive, passive_relay_hi]. destruct (_ && _); [apply sdt_frame|apply frame_refl].
+  - destruct (hasf _ _); [apply frame_passive, passive_relay_hi|apply frame_refl].
+Qed.
+Lemma fold_restore_frame e c l : forall s, frame s (fold_left (restore_relay e c) l s).
+Proof. induction l as [|x l IH]; intros s; cbn; [apply frame_refl|]. eapply frame_trans; [apply restore_relay_frame|apply IH]. Qed.
+Lemma csv_frame e c ch v dur sd s : frame s (channel_set_value e c ch v dur sd s).
+Proof.
+  unfold channel_set_value. destruct (find_chan _ _ _) as [[a r]|]; [|apply frame_passive, passive_set_result].
+  pose proof (passive_chan_set_value c (r_gpio r) v ch (set_duration_timer e c (r_chan r) v (s32 dur) sd s)) as P.
+  destruct (chan_set_value _ _ _ _ _) as [s2 ok]. cbn [fst] in P.
+  eapply frame_trans; [apply sdt_frame|]. eapply frame_trans; [apply frame_passive; exact P|]. apply frame_passive, passive_set_result.
+Qed.
+Lemma rsw_frame e c port hi s : frame s (relay_switch e c port hi s).
+Proof.
+  unfold relay_switch. destruct (_ <? 0); [apply frame_refl|].
+  eapply frame_trans; [|apply frame_passive, passive_value_changed].
+  eapply frame_trans; [|apply frame_passive, passive_relay_hi].
+  destruct (_ <? ST_T2_COUNT); [|apply frame_refl].
+  eapply frame_trans; [apply frame_passive, passive_set_ram_t2|apply sdt_frame].
+Qed.
+
+(* ---------- boot ---------- *)
+Lemma free_inactive x : In x (repeat slot_free 8) -> active x = false /\ s_chan x = 255.
+Proof. intros H. apply repeat_spec in H. subst. split; reflexivity. Qed.
+
+Lemma restore_relay_spec e c s s' a r :
+  s' = restore_relay e c s (a, r) -> wf_cfg c -> In r (c_relays c) -> Good s -> NW s' ->
+  Good s' /\ evo (fun _ => True) s s'.
+Proof.
+  intros Es' W Hr G N. unfold restore_relay in Es'. pose proof (wf_chan _ W r Hr) as Hc.
+  destruct (_ || _).
+  - destruct consts_ok. destruct cf_t3 as [CT1 CT2].
+    assert (Lt : (0 <=? r_chan r) && (r_chan r <? ST_T2_COUNT) = true) by (apply andb_true_iff; split; [apply Z.leb_le|apply Z.ltb_lt]; lia).
+    rewrite Lt in Es'.
+    remember (set_duration_timer e c (r_chan r) (s8 (getz (ram_relay s) a)) (s32 (getz (ram_t2 s) (r_chan r))) 0 s) as s1 eqn:Es1.
+    assert (P : passive s1 s') by (subst s'; apply passive_relay_hi).
+    assert (N1 : NW s1) by (eapply NW_passive; eauto).
+    pose proof (s32_range (getz (ram_t2 s) (r_chan r))).
+    destruct (set_duration_timer_spec e c _ _ _ _ s s1 Es1 W G Hc ltac:(lia) N1) as (G1 & F1 & Nw1 & E1 & _).
+    split; [eapply Good_passive; eauto|].
+    apply (evo_trans _ s s1 s'); [apply F1| |apply evo_passive; auto]. eapply evo_weaken; [|exact E1]. auto.
+  - destruct (hasf _ _).
+    + assert (P : passive s s') by (subst s'; apply passive_relay_hi). split; [eapply Good_passive; eauto|apply evo_passive; auto].
+    + subst s'. split; auto. apply evo_refl.
+Qed.
+Lemma fold_restore_spec e c : forall l s s',
+  s' = fold_left (restore_relay e c) l s -> wf_cfg c -> (forall ar, In ar l -> In (snd ar) (c_relays c)) -> Good s -> NW s' ->
+  Good s' /\ evo (fun _ => True) s s'.
+Proof.
+  induction l as [|[a r] l IH]; intros s s' Es' W Hl G N; cbn [fold_left] in Es'.
+  - subst s'. split; auto. apply evo_refl.
+  - remember (restore_relay e c s (a, r)) as s1 eqn:Es1.
+    assert (N1 : NW s1) by (eapply NW_frame; [|exact N]; subst s'; apply fold_restore_frame).
+    destruct (restore_relay_spec e c s s1 a r Es1 W (Hl (a, r) (or_introl eq_refl)) G N1) as (G1 & E1).
+    destruct (IH s1 s' Es' W (fun ar H => Hl ar (or_intror H)) G1 N) as (G' & E').
+    split; auto. apply (evo_trans _ s s1 s'); auto. subst s1. apply restore_relay_frame.
+Qed.
+Lemma enum_snd {A} (l : list A) : forall i ar, In ar (enum i l) -> In (snd ar) l.
+Proof. induction l as [|x l IH]; intros i ar H; cbn in *; [contradiction|]. destruct H as [<-|H]; cbn; auto. right. eapply IH; eauto. Qed.
+
+(* the part of the trace invariant that does not mention the slot table *)
+Record TrO (s : st) : Prop := {
+  to_fin : forall tcb ch tg t0 dur u0 u, In (GFinish tcb ch tg t0 dur u0 u) (outs s) ->
+     (dur - 1) * 1000 < tcb - t0 /\ 0 < dur /\ tcb <= now s /\ In (GArm t0 ch dur tg) (outs s);
+  to_uniq : NoDup (fins (outs s))
+}.
+Lemma Tr_TrO s : Tr s -> TrO s.
+Proof. intros []. constructor; auto. intros * H. destruct (tr_fin0 _ _ _ _ _ _ _ H) as (A & B & C & D & _). auto. Qed.
+
+Lemma boot_spec e c s s' :
+  s' = boot e c s -> wf_cfg c -> TrO s -> 0 <= cnt0 s -> tb s <= now s -> NW s' ->
+  Good s' /\ cnt0 s' = cnt0 s /\ tb s' = tb s /\ now s <= now s' /\ (exists add, outs s' = add ++ outs s) /\
+  (forall y, In y (slots s') -> active y = true -> now s <= g_t0 y).
+Proof.
+  intros Es' W TO C0 Ct N. unfold boot in Es'.
+  remember (t_arm TUP UPTIME_POLL_MS true (set_upc 0 (set_upl 0 (set_seqc 0 (set_li 0 (set_tcd tmr0 (set_tsv tmr0 (set_tup tmr0 s)))))))) as s1 eqn:Es1.
+  remember (set_ram_relay (fl_relay s1) (set_ram_t2 (fl_t2 s1) s1)) as s2 eqn:Es2.
+  remember (set_slots (repeat slot_free 8) (set_delay 0 s2)) as s3 eqn:Es3.
+  remember (set_chfl (if c_lateflags c then map (fun _ => 0) (c_relays c) else map r_chfl (c_relays c)) s3) as s4 eqn:Es4.
+  remember (set_queue [] (set_conn false (set_reg false (set_gout 0 s4)))) as s5 eqn:Es5.
+  remember (fold_left (restore_relay e c) (enum 0 (c_relays c)) s5) as s6 eqn:Es6.
+  assert (A5 : slots s5 = repeat slot_free 8 /\ delay s5 = 0 /\ tcd s5 = tmr0 /\ cnt0 s5 = cnt0 s /\ tb s5 = tb s /\ now s5 = now s /\
+               upc s5 = 0 /\ upl s5 = 0 /\ outs s5 = outs s /\ time2 s5 = time2 s).
+  { subst s5 s4 s3 s2 s1. cbn. repeat split; reflexivity. }
+  destruct A5 as (a1 & a2 & a3 & a4 & a5 & a6 & a7 & a8 & a9 & a10).
+  assert (G5 : Good s5).
+  { constructor; [constructor|constructor|]; unfold ClockOK, TmrOK, slot_at; rewrite ?a1, ?a2, ?a3, ?a4, ?a5, ?a6, ?a7, ?a8, ?a9.
+    - apply repeat_length.
+    - lia.
+    - intros x Hx. left. apply (free_inactive x Hx).
+    - intros x Hx Ax. destruct (free_inactive x Hx). congruence.
+    - intros i j Hi Hj _ Ne. exfalso. apply Ne. apply (free_inactive (nth i (repeat slot_free 8) slot_free)). apply nth_In. rewrite repeat_length. auto.
+    - cbn. repeat split; auto; lia.
+    - intros * H. destruct (to_fin _ TO _ _ _ _ _ _ _ H) as (A & B & C & D). repeat split; auto.
+      intros x Hx Ax. destruct (free_inactive x Hx). congruence.
+    - intros x Hx Ax. destruct (free_inactive x Hx). congruence.
+    - apply TO.
+    - intros x Hx Ax. rewrite a1 in Hx. destruct (free_inactive x Hx). congruence. }
+  remember (fst (uptime_usec s6)) as s7 eqn:Es7.
+  assert (F67 : frame s6 s7) by (subst s7; unfold uptime_usec; cbn [fst]; constructor; cbn; try reflexivity; try lia; exists []; auto).
+  assert (F7' : frame s7 s') by (subst s'; constructor; cbn; try reflexivity; try lia; exists []; auto).
+  pose proof (frame_trans _ _ _ F67 F7') as F6'.
+  assert (N6 : NW s6) by (eapply NW_frame; eauto).
+  destruct (fold_restore_spec e c _ s5 s6 Es6 W (enum_snd _ 0) G5 N6) as (G6 & E6).
+  assert (F56 : frame s5 s6) by (subst s6; apply fold_restore_frame).
+  assert (P67 : passive s6 s7).
+  { pose proof (uptime_usec_spec s6 (i_clk _ (g_inv _ G6)) N6) as U. rewrite U in Es7. cbn [fst] in Es7. subst s7.
+    destruct (i_clk _ (g_inv _ G6)) as (A & B & C & D). unfold NW in N6.
+    constructor; cbn; try reflexivity; try lia. - intros _. unfold ClockOK; cbn. lia. - exists []; auto. }
+  assert (G7 : Good s7) by (eapply Good_passive; eauto).
+  assert (S67 : slots s7 = slots s6) by apply P67.
+  assert (G' : Good s').
+  { subst s'. eapply Good_tick; [..|exact G7]; try reflexivity; cbn; try lia. split; reflexivity. }
+  split; [auto|]. destruct F56, F6'.
+  split; [congruence|]. split; [congruence|]. split; [lia|]. split.
+  - destruct fr_outs0 as (x & E1), fr_outs1 as (y & E2). exists (y ++ x). rewrite E2, E1, a9, app_assoc. reflexivity.
+  - intros y Hy Ay.
+    assert (Hy6 : In y (slots s6)) by (rewrite <- S67; subst s'; exact Hy).
+    destruct (E6 y Hy6 Ay) as [(x & Hx & Ax & _)|[A _]]; [|lia].
+    rewrite a1 in Hx. destruct (free_inactive x Hx). congruence.
+Qed.
+
+(* ---------- one event, whole runs ---------- *)
+Definition ev_chan (c : cfg) (x : ev) : Z -> Prop :=
+  match x with
+  | ESet ch _ _ _ => fun k => k = u8 ch
+  | ESw port _ => fun k => k = last_chan (c_relays c) port (-1)
+  | ECrash => fun _ => True
+  | _ => fun _ => False
+  end.
+Definition is_crash (x : ev) : bool := match x with ECrash => true | _ => false end.
+
+Lemma Good_cfgchange s s' :
+  slots s' = slots s -> delay s' = delay s -> tcd s' = tcd s -> cnt0 s' = cnt0 s -> tb s' = tb s -> upc s' = upc s -> upl s' = upl s ->
+  outs s' = outs s -> now s' = now s -> Good s -> Good s'.
+Proof. intros. eapply Good_tick; eauto; try lia. split; congruence. Qed.
+
+Lemma step_frame e c s x : is_crash x = false -> (forall dt, x = EAdv dt -> 0 <= dt) -> frame s (step e c s x).
+Proof.
+  intros NC Hdt. unfold step. eapply frame_trans; [|apply frame_emit].
+  destruct x; try discriminate.
+  - apply csv_frame.
+  - apply rsw_frame.
+  - apply advance_frame. apply Hdt; auto.
+  - destruct (_ && _); [|apply frame_refl]. constructor; cbn; try reflexivity; try lia. exists []; auto.
+  - constructor; cbn; try reflexivity; try lia. exists []; auto.
+  - apply frame_emit.
+Qed.
+
+Definition wf_ev (x : ev) : Prop := match x with EAdv dt => 0 <= dt | _ => True end.
+
+Lemma step_spec e c s x s' :
+  s' = step e c s x -> wf_cfg c -> wf_ev x -> Good s -> NW s' ->
+  Good s' /\ now s <= now s' /\ evo (ev_chan c x) s s' /\ (exists add, outs s' = add ++ outs s) /\
+  (is_crash x = false -> cnt0 s' = cnt0 s /\ tb s' = tb s).
+Proof.
+  intros Es' W Wx G N. unfold step in Es'.
+  set (s1 := match x with ESet _ _ _ _ => _ | _ => _ end) in *.
+  assert (P : passive s1 s') by (subst s'; apply passive_emit; exact Logic.I).
+  assert (N1 : NW s1) by (eapply NW_passive; eauto).
+  assert (OPpos : 0 <= OP) by (destruct consts_ok; unfold OP; lia).
+  assert (K : Good s1 /\ now s <= now s1 /\ evo (ev_chan c x) s s1 /\ (exists add, outs s1 = add ++ outs s) /\
+              (is_crash x = false -> cnt0 s1 = cnt0 s /\ tb s1 = tb s)).
+  { destruct x; unfold s1 in *; cbn [ev_chan is_crash].
+    - destruct (channel_set_value_spec e c (u8 ch) v dur sender s _ eq_refl W G N1) as (G1 & F1 & _ & E1 & _).
+      split; [auto|]. split; [apply F1|]. split; [auto|]. split; [apply F1|]. intros _. split; apply F1.
+    - destruct (relay_switch_spec e c port hi s _ eq_refl W G N1) as (G1 & F1 & _ & E1 & _).
+      split; [auto|]. split; [apply F1|]. split; [auto|]. split; [apply F1|]. intros _. split; apply F1.
+    - destruct (advance_spec e c dt s _ eq_refl W G N1) as (G1 & E1 & Nw).
+      pose proof (advance_frame e c dt s Wx) as F1.
+      split; [auto|]. split; [apply F1|]. split; [auto|]. split; [apply F1|]. intros _. split; apply F1.
+    - unfold crash in *.
+      remember (set_tb (now s) (set_cnt0 (c_boot2 c) (emit (OReboot (now s)) s))) as s0 eqn:Es0.
+      assert (TO : TrO s0).
+      { pose proof (Tr_TrO _ (g_tr _ G)) as []. subst s0. constructor; cbn [outs set_tb set_cnt0 emit set_outs now].
+        - intros * [E|H]; [discriminate|]. destruct (to_fin0 _ _ _ _ _ _ _ H) as (A & B & C & D). repeat split; auto. right; auto.
+        - cbn [fins]. auto. }
+      destruct (boot_spec e c s0 _ eq_refl W TO) as (G1 & A1 & A2 & A3 & (add & A4) & A5).
+      + subst s0. cbn. apply (wf_boot2 _ W).
+      + subst s0. cbn. lia.
+      + auto.
+      + assert (N0 : now s0 = now s) by (subst s0; reflexivity).
+        assert (O0 : outs s0 = OReboot (now s) :: outs s) by (subst s0; reflexivity).
+        split; [auto|]. split; [lia|]. split.
+        * intros y Hy Ay. right. split; auto. specialize (A5 y Hy Ay). lia.
+        * split; [|intros; discriminate]. exists (add ++ [OReboot (now s)]). rewrite A4, O0. rewrite <- app_assoc. reflexivity.
+    - split; [|split; [destruct (_ && _); cbn; lia|split; [|split; [exists []; destruct (_ && _); reflexivity|intros _; destruct (_ && _); split; reflexivity]]]].
+      + destruct (_ && _); auto. eapply Good_cfgchange; [..|exact G]; reflexivity.
+      + destruct (_ && _); [apply evo_same_slots; reflexivity|apply evo_refl].
+    - split; [eapply Good_cfgchange; [..|exact G]; reflexivity|]. split; [cbn; lia|]. split; [apply evo_same_slots; reflexivity|].
+      split; [exists []; reflexivity|intros _; split; reflexivity].
+    - assert (P1 : passive s (emit OUnknown s)) by (apply passive_emit; exact Logic.I).
+      split; [eapply Good_passive; eauto|]. split; [apply P1|]. split; [apply evo_passive; auto|].
+      split; [eexists [_]; reflexivity|intros _; split; reflexivity]. }
+  destruct K as (G1 & Nw & E1 & (add & O1) & C1).
+  split; [eapply Good_passive; eauto|]. split; [destruct P; lia|]. split.
+  - apply (evo_trans _ s s1 s'); auto. apply evo_passive; auto.
+  - split.
+    + destruct (pa_outs _ _ P) as (a2 & O2 & _). exists (a2 ++ add). rewrite O2, O1, app_assoc. reflexivity.
+    + intros NC. destruct (C1 NC). rewrite (pa_cnt0 _ _ P), (pa_tb _ _ P). auto.
+Qed.
+
+Definition NWrun (e : bool) (c : cfg) (s : st) (evs : list ev) : Prop := forall k, NW (run_from e c s (firstn k evs)).
+Lemma NWrun_cons e c s x evs : NWrun e c s (x :: evs) -> NW (step e c s x) /\ NWrun e c (step e c s x) evs.
+Proof. intros H. split. - apply (H 1%nat). - intros k. apply (H (S k)). Qed.
+Lemma NWrun_nil e c s : NWrun e c s [] -> NW s.
+Proof. intros H. apply (H 0%nat). Qed.
+
+Lemma run_good e c : forall evs s, wf_cfg c -> Forall wf_ev evs -> Good s -> NWrun e c s evs -> Good (run_from e c s evs).
+Proof.
+  induction evs as [|x evs IH]; intros s W Wx G N; cbn; auto.
+  apply NWrun_cons in N. destruct N as [N1 N2]. inversion Wx; subst.
+  destruct (step_spec e c s x _ eq_refl W H1 G N1) as (G1 & _). apply IH; auto.
+Qed.
+Lemma start_good e c : wf_cfg c -> NW (start e c) -> Good (start e c).
+Proof.
+  intros W N. unfold start in *. set (s := boot e c (init c)) in *.
+  assert (P : passive s (emit (st_line c s) s)) by (apply passive_emit; exact Logic.I).
+  assert (N1 : NW s) by (eapply NW_passive; eauto).
+  assert (TO : TrO (init c)) by (constructor; cbn; [intros; contradiction|constructor]).
+  assert (C0 : 0 <= cnt0 (init c)) by (cbn; apply (wf_boot _ W)).
+  assert (Ct : tb (init c) <= now (init c)) by (cbn; lia).
+  destruct (boot_spec e c (init c) s eq_refl W TO C0 Ct N1) as (G & _).
+  eapply Good_passive; eauto.
+Qed.
+
+(* ---------- the theorems about whole histories ---------- *)
+Section Histories.
+Variable e : bool.
+Variable c : cfg.
+Hypothesis W : wf_cfg c.
+Variable evs : list ev.
+Hypothesis Wev : Forall wf_ev evs.
+(* H_nowrap: the 32-bit microsecond counter does not wrap inside the history (after every prefix) *)
+Hypothesis H_nowrap : NWrun e c (start e c) evs.
+Let final := run_from e c (start e c) evs.
+
+Lemma final_good : Good final.
+Proof. apply run_good; auto. apply start_good; auto. exact (H_nowrap 0%nat). Qed.
+
+(* C07_armed_period_bound *)
+Theorem armed_period_bound_thm :
+  forall x, In x (slots final) -> active x = true ->
+    t_on (tcd final) = true /\ CD_MIN <= delay final <= clampd (s_left x) /\ t_per (tcd final) = delay final * 1000.
+Proof. exact (g_t1 _ final_good). Qed.
+
+(* C07_never_early / at most once *)
+Theorem never_early_thm :
+  forall tcb ch tg t0 dur u0 u, In (GFinish tcb ch tg t0 dur u0 u) (run e c evs) ->
+    (dur - 1) * 1000 < tcb - t0 /\ In (GArm t0 ch dur tg) (run e c evs).
+Proof.
+  intros * H. unfold run in *. apply in_rev in H. fold final in H.
+  destruct (tr_fin _ (g_tr _ final_good) _ _ _ _ _ _ _ H) as (A & B & C & D & _). split; auto. apply -> in_rev. exact D.
+Qed.
+Theorem at_most_once_thm : NoDup (fins (outs final)).
+Proof. exact (tr_uniq _ (g_tr _ final_good)). Qed.
+End Histories.
+
+(* ---------- machine-checked witnesses (computed on the model, replayed on the real code by the harness) ---------- *)
+Definition mkcfg (rs : list relay) (lf : bool) : cfg :=
+  {| c_boot := 1; c_boot2 := 1; c_sbt := 0; c_lateflags := lf; c_relays := rs; c_time2 := []; c_late := [] |}.
+Definition rl (g ch f cf : Z) : relay := {| r_gpio := g; r_chan := ch; r_flags := f; r_chfl := cf |}.
+(* lateness (us) of every switch-back of channel ch: evaluation time - (arming time + duration) *)
+Definition fin_late (l : list out) (ch : Z) : list Z :=
+  flat_map (fun o => match o with GFinish tcb ch' _ t0 dur _ _ => if ch' =? ch then [tcb - t0 - dur * 1000] else [] | _ => [] end) l.
+Definition gpio_edges (l : list out) (p : Z) : list (Z * Z) :=
+  flat_map (fun o => match o with OGpio t p' lv => if p' =? p then [(t, lv)] else [] | _ => [] end) l.
+
+(* 1. unchanged code (evalcmd = false): commands on another channel that keep changing the shared period re-arm the
+      timer again and again; "on for 1000 ms" on channel 0 is evaluated 1.5 s late although no callback is late.
+      With the repair (evalcmd = true) the same history switches back 0.5 ms after the second. *)
+Definition storm_cfg := mkcfg [rl 4 0 0 0; rl 5 1 0 0] false.
+Definition storm_evs : list ev :=
+  ESet 0 1 1000 1 :: flat_map (fun k => [EAdv 30000; ESet 1 1 (if Nat.even k then 400 else 20000) 2]) (seq 0 60) ++ [EAdv 3000000].
+Lemma old_code_refuted_thm :
+  fin_late (run false storm_cfg storm_evs) 0 = [1501200] /\ fin_late (run true storm_cfg storm_evs) 0 = [500].
+Proof. vm_compute. split; reflexivity. Qed.
+
+(* 2. eight timers expiring in the same callback: every finish callback busy-waits RELAY_DOUBLE_TRY, the last relay
+      (command at 70.14 ms, 231 ms) switches back at 420.15 ms = 119 ms late, with or without the repair *)
+Definition serial_cfg := mkcfg [rl 1 0 0 0; rl 2 1 0 0; rl 3 2 0 0; rl 4 3 0 0; rl 5 4 0 0; rl 12 5 0 0; rl 13 6 0 0; rl 14 7 0 0] false.
+Definition serial_evs : list ev :=
+  [ESet 0 1 301 1; ESet 1 1 291 1; ESet 2 1 281 1; ESet 3 1 271 1; ESet 4 1 261 1; ESet 5 1 251 1; ESet 6 1 241 1; ESet 7 1 231 1; EAdv 3000000].
+Lemma busy_wait_late_refuted_thm :
+  gpio_edges (run false serial_cfg serial_evs) 14 = [(70150, 1); (420150, 0)] /\
+  gpio_edges (run true serial_cfg serial_evs) 14 = [(70150, 1); (420150, 0)].
+Proof. vm_compute. split; reflexivity. Qed.
+
+(* 3. the millisecond clock is truncated: "on for 40 ms" commanded at 10.998 ms is switched back at 50.010 ms *)
+Definition early_evs : list ev := [ESet 0 1 400 7; EAdv 978; ESet 1 1 40 7; EAdv 100000].
+Lemma submillisecond_early_witness_thm :
+  gpio_edges (run false storm_cfg early_evs) 5 = [(11008, 1); (50010, 0)] /\ fin_late (run false storm_cfg early_evs) 1 = [-998].
+Proof. vm_compute. split; reflexivity. Qed.
+
+(* 4. "off for 5 s" on a countdown-capable channel, restart after 2 s: when the board fills channel_flags only at
+      registration (lateflags) the timer is not restored and the relay stays off; when the flags are known in
+      gpio_init it comes back on 4.05 s (the saved remaining time) after the restart *)
+Definition late_cfg (lf : bool) := mkcfg [rl 4 0 2 16777216] lf.
+Definition late_evs : list ev := [EFlags; ESet 0 1 0 1; EAdv 2000000; ESet 0 0 5000 1; EAdv 2000000; ECrash; EFlags; EAdv 6000000].
+Lemma restore_needs_flags_refuted_thm :
+  gpio_edges (run false (late_cfg true) late_evs) 4 = [(10030, 1); (2020050, 0)] /\
+  gpio_edges (run false (late_cfg false) late_evs) 4 = [(10030, 1); (2020050, 0); (8084070, 1)].
+Proof. vm_compute. split; reflexivity. Qed.
+
+(* ================================================================================================
+   Second pass: where switch-backs come from (finsrc), and the timing side (J): the shared timer is
+   never due later than one period after "now" (j_due); with the repaired countdown() every running slot
+   was evaluated at most 8 relay operations before the timer was (re)armed (j_q), and every switch-back
+   was on time provided the evaluations started within S of the timer's due time (j_ot under Slack S).
+   ================================================================================================ *)
+Definition BQ : Z := 8 * OP.
+Definition srcfin (s : st) (add : list out) : Prop :=
+  forall tcb ch tg t0 dur u0 u, In (GFinish tcb ch tg t0 dur u0 u) add ->
+    (exists x, In x (slots s) /\ active x = true /\ s_chan x = ch /\ g_t0 x = t0) \/ now s <= t0.
+Definition finsrc (s s' : st) : Prop := exists add, outs s' = add ++ outs s /\ srcfin s add.
+Lemma finsrc_refl s : finsrc s s.
+Proof. exists []. split; auto. intros * H. contradiction. Qed.
+Lemma finsrc_noghost s s' add : outs s' = add ++ outs s -> Forall noghost add -> finsrc s s'.
+Proof.
+  intros E F. exists add. split; auto. intros tcb ch tg t0 dur u0 u H. rewrite Forall_forall in F. apply F in H. contradiction.
+Qed.
+Lemma finsrc_passive s s' : passive s s' -> finsrc s s'.
+Proof. intros []. destruct pa_outs0 as (add & E & F). eapply finsrc_noghost; eauto. Qed.
+Lemma finsrc_trans P s s1 s2 : now s <= now s1 -> evo P s s1 -> finsrc s s1 -> finsrc s1 s2 -> finsrc s s2.
+Proof.
+  intros Hn E (a1 & O1 & S1) (a2 & O2 & S2). exists (a2 ++ a1). split; [rewrite O2, O1, app_assoc; reflexivity|].
+  intros * H. apply in_app_or in H. destruct H as [H|H]; [|eapply S1; eauto].
+  destruct (S2 _ _ _ _ _ _ _ H) as [(x & Hx & Ax & Ec & Et)|Hl]; [|right; lia].
+  destruct (E x Hx Ax) as [(x0 & Hx0 & Ax0 & (I1 & I2 & _) & _)|[A _]].
+  - left. exists x0. repeat split; auto; congruence.
+  - right. lia.
+Qed.
+
+Definition Slack (S : Z) (l : list out) : Prop := forall due t, In (GEvalStart due t) l -> t <= due + S.
+Lemma Slack_app S a l : Slack S (a ++ l) -> Slack S l.
+Proof. intros H due t Hin. apply H. apply in_or_app; auto. Qed.
+Lemma Slack_frame S s s' : frame s s' -> Slack S (outs s') -> Slack S (outs s).
+Proof. intros [] H. destruct fr_outs0 as (a & E). rewrite E in H. eapply Slack_app; eauto. Qed.
+
+Definition OTB (S : Z) : Z := CD_MIN * 1000 + S + 2 * BQ.
+Record J (e : bool) (S : Z) (s : st) : Prop := {
+  j_due : t_on (tcd s) = true -> t_due (tcd s) <= now s + t_per (tcd s);
+  j_q : e = true -> forall x, In x (slots s) -> active x = true -> t_due (tcd s) <= g_tl x + BQ + t_per (tcd s);
+  j_ot : e = true -> forall tcb ch tg t0 dur u0 u, In (GFinish tcb ch tg t0 dur u0 u) (outs s) ->
+            tcb < t0 + dur * 1000 + OTB S
+}.
+
+(* steps that keep the shared timer: only the clock may move, slots may disappear or be (re)armed "now" *)
+Lemma J_keep e S P s s' :
+  tcd s' = tcd s -> now s <= now s' -> evo P s s' -> Inv s' -> T1 s' ->
+  (exists add, outs s' = add ++ outs s /\ Forall noghost add) ->
+  J e S s -> J e S s'.
+Proof.
+  intros Et Hn E I' TT' (add & Eo & Fa) [Jd Jq Jo].
+  assert (BQpos : 0 <= BQ) by (destruct consts_ok; unfold BQ, OP; lia).
+  constructor.
+  - rewrite Et. intros H. specialize (Jd H). lia.
+  - intros He y Hy Ay. rewrite Et. destruct (E y Hy Ay) as [(x & Hx & Ax & _ & _ & G)|[A _]].
+    + specialize (Jq He x Hx Ax). lia.
+    + destruct (TT' y Hy Ay) as (On & _). rewrite Et in On. specialize (Jd On).
+      destruct (i_ok _ I' y Hy Ay) as [_ _ _ _ _ _ (T1' & T2' & T3')]. lia.
+  - intros He * H. rewrite Eo in H. apply in_ghost_app in H; auto. eapply Jo; eauto.
+Qed.
+Lemma J_passive e S s s' : passive s s' -> Good s -> J e S s -> J e S s'.
+Proof.
+  intros P G Jj. pose proof (Good_passive _ _ P G) as G'.
+  eapply (J_keep e S (fun _ => False)); eauto; try apply P; try apply G'. apply evo_passive; auto.
+Qed.
+
+(* the arithmetic of the adaptive period: a slot with L ms left, evaluated again within period + slack *)
+Lemma period_arith dur L : 1 <= L -> (dur - L + 1) * 1000 + clampd L * 1000 <= dur * 1000 + CD_MIN * 1000.
+Proof.
+  intros HL. destruct consts_ok. destruct (Z_lt_ge_dec L (CD_MIN * CD_DIV)) as [Hs|Hb].
+  - rewrite clampd_small by auto. nia.
+  - pose proof (clampd_large L Hb). pose proof (clampd_range L). nia.
 Qed.
